@@ -39,7 +39,7 @@ VALID = {
     "Date": ["Wed, 21 Oct 2015 07:28:00 GMT", "Tue, 15 Nov 1994 08:12:31", "Tue, 15 Nov 1994 08:12:31 -0000", "15 Nov 1994 08:12",
              "1 Jan 24 99999999999999999999:00", "1 Jan 0001 00:00:00 +2300", "31 Dec 9999 23:59:59 -2300"],
     "Referer": ["http://example.com/a?b=c", "http://a:b/", "http://u:p@/", "//[", "http://u:p@a:99999/x"],
-    "Host": ["example.com:8080", "a:b", "a:99999", "a:-1", "u:p@", "u:p@a:b", "[::1]:80", "[::1"],
+    "Host": ["example.com:8080", "a:b", "a:99999", "a:-1", "u:p@", "u:p@a:b", "[::1]:80", "[::1", "[::1]:80@", "[::1]@8\u00b5", "[:x@h", "u:[@h"],
     "Range": ["bytes=0-4,9-"],
     "If-Range": ['"abc"'],
     "If-None-Match": ['W/"abc", "def"'],
